@@ -214,6 +214,15 @@ func sweepSection(x *h.X) {
 		return
 	}
 	priv := (&protoKey{kd, pt, kid}).clone()
+	// key level at EVERY parameter point (the "keys" section sees the family's representatives only): constructors
+	// whose copying depends on the parameters (per-KEM, per-curve, per-size validation helpers) are all visited
+	var pub *protoKey
+	if kc.Pub != nil {
+		if kd, pt, kid, _, err := vb.SerializeKey(kc.Pub); err == nil {
+			pub = (&protoKey{kd, pt, kid}).clone()
+		}
+	}
+	keyLevelCases(x, fromCatalogue(f), priv.clone(), pub, kc.Desc)
 	if sp, ok := kc.P.(interface{ SegmentSizeInBytes() int32 }); ok && sp.SegmentSizeInBytes() > 1<<20 {
 		// every writer / reader allocates a segment buffer: gigabyte segments x 16 workers exceed the sandbox memory
 		x.Outcome("n/a:streaming-segment-over-1MiB")
